@@ -182,6 +182,9 @@ class C08(Prop):
                     m[sorted(m)[i % len(m)]] = i
         if sorted(set(m.values())) != list(range(nsub)):
             return leaf()
+        items = list(m.items())
+        rng.shuffle(items)            # the meaning of a symmetry map does not depend on the order its entries were written in
+        m = dict(items)
         return SymmetricElement(m, [s[0] for s in subs]), El("symmetric", (sum(prod(s[1].ref) for s in subs),), [s[1] for s in subs], dict(m))
 
     def oracle_case(self, rng, k):
